@@ -33,6 +33,8 @@ func init() {
 	for k, v := range map[string]externalFn{
 		"(reflect.Value).Bool":            ext۰reflect۰Value۰Bool,
 		"(reflect.Value).CanAddr":         ext۰reflect۰Value۰CanAddr,
+		"(reflect.Value).CanSet":          ext۰reflect۰Value۰CanSet,
+		"reflect.Indirect":                ext۰reflect۰Indirect,
 		"(reflect.Value).CanInterface":    ext۰reflect۰Value۰CanInterface,
 		"(reflect.Value).Elem":            ext۰reflect۰Value۰Elem,
 		"(reflect.Value).Field":           ext۰reflect۰Value۰Field,
